@@ -703,12 +703,10 @@ KEEP += KEEP_AGENTS
 # rewrites by independent authors that are NOT silent yet (the checks report them or stop): kept in the catalogue, reported as
 # open by tools/run_selftest.py, one reason each (DESIGN 8.5, eighth campaign)
 OPEN_REWRITES = {
-    'R01-2': 'the verification loop of the 5-DOF solver as into_iter().enumerate().filter_map(..) with the position gate inlined: R01.4/R02.2/R06.x read the loop form',
-    'R02-1': 'validation loop of inverse_intern with enumerate().all(..) and a continue guard: R01.4 finite-slots / R02.2 verify-all-rows read the flag-and-break form',
+    'R01-2': 'the verification loop of the 5-DOF solver as into_iter().enumerate().filter_map(..) with the position gate inlined: C02 and C06 decide it by symbolic interpretation, C01 needs the position gate as a helper of its own (R01.2/R01.3 read its body)',
     'R02-4': 'rows 4..7 of the candidate table generated in a loop from rows 0..3: the table is read from one array aggregate',
     'R03-2': 'forward_with_joint_poses as a table of (offset, axis, angle) and a loop filling [Pose; 6]: R03.1/R03.2 read the six chained products',
     'R04-3': 'near-normaliser as a value-returning fn applied through array::from_fn: role and call sites are read as fn(&mut f64, f64)',
-    'R06-2': 'normalisation of J1..J5 in a helper returning Option<Joints>: R01.4/R02.2 read the in-place loop',
     'R12-2': 'flags of a Cartesian extension by split_last + extend, RRT gap by find_map: R12.5 reads the per-item flag choice',
     'R13-2': 'ancestor walk by iter::successors, path assembly by rev().chain().collect(), orientation tested on the other tree: R13.3 reads the two walks, reverse and append',
     'R17-2': 'source and target bases through orthonormal_basis(o, x, y) -> Option<Matrix3> and ok_or_else(..)?: R17.1/R17.2 read the two column triples',
